@@ -250,8 +250,8 @@ Definition td_equiv_b (a c : type_def) : bool :=
   && same_set_b (td_members a) (td_members c)
   && assoc_b ev_name ev_name ev_equiv_b (td_enum_values a) (td_enum_values c)
   && assoc_b iv_name iv_name iv_equiv_b (td_input_fields a) (td_input_fields c)
-  && opt_opt_eqb (specified_of (td_dirs a)) (specified_of (td_dirs c))
-  && Bool.eqb (one_of (td_dirs a)) (one_of (td_dirs c)).
+  && (negb (kind_eqb (td_kind a) KScalar) || opt_opt_eqb (specified_of (td_dirs a)) (specified_of (td_dirs c)))
+  && (negb (kind_eqb (td_kind a) KInputObject) || Bool.eqb (one_of (td_dirs a)) (one_of (td_dirs c))).
 Definition td_equiv (a c : type_def) : Prop :=
   td_kind a = td_kind c
   /\ same_set (td_implements a) (td_implements c)
@@ -259,8 +259,8 @@ Definition td_equiv (a c : type_def) : Prop :=
   /\ same_set (td_members a) (td_members c)
   /\ assoc ev_name ev_name ev_equiv (td_enum_values a) (td_enum_values c)
   /\ assoc iv_name iv_name iv_equiv (td_input_fields a) (td_input_fields c)
-  /\ opt_opt_eqb (specified_of (td_dirs a)) (specified_of (td_dirs c)) = true
-  /\ one_of (td_dirs a) = one_of (td_dirs c).
+  /\ (td_kind a = KScalar -> opt_opt_eqb (specified_of (td_dirs a)) (specified_of (td_dirs c)) = true)
+  /\ (td_kind a = KInputObject -> one_of (td_dirs a) = one_of (td_dirs c)).
 
 Definition dd_equiv_b (a c : directive_def) : bool :=
   assoc_b iv_name iv_name iv_equiv_b (dd_args a) (dd_args c)
@@ -378,7 +378,10 @@ Section Exact.
     && refs_are_b IK_INTERFACE (td_implements t) (it_interfaces i)
     && assoc_b ev_name ie_name enum_matches_b (td_enum_values t) (it_enums i)
     && refs_are_b IK_OBJECT (expected_possible t) (it_possible i)
-    && match specified_of (td_dirs t) with Some u => opt_bytes_eqb (it_specified i) u | None => false end.
+    && match td_kind t with
+       | KScalar => match specified_of (td_dirs t) with Some u => opt_bytes_eqb (it_specified i) u | None => false end
+       | _ => opt_bytes_eqb (it_specified i) None
+       end.
 
   Definition directive_matches_b (d : directive_def) (i : idirective) : bool :=
     assoc_b iv_name ii_name input_matches_b (dd_args d) (id_args i)
